@@ -287,13 +287,7 @@ func Tokenize(source string) ([]Token, error) {
 		} else if matches := regexp.MustCompile(`(?s)^\/\*(.*?)\*\/`).FindStringSubmatch(source[i:]); matches != nil {
 			// Multiline comment.
 			token = newToken(matches[1], COMMENT, ogRow, ogColumn)
-			match := matches[0]
-			lines := strings.Split(match, "\n")
-			lastLinesIndex := len(lines) - 1
-			row += lastLinesIndex
-			ogColumn = startIndex
-			i += len(match)
-			ogI = i - len(lines[lastLinesIndex])
+			i += len(matches[0])
 		} else if matches := regexp.MustCompile(`^\/\/(.*)`).FindStringSubmatch(source[i:]); matches != nil {
 			// Single line comment.
 			token = newToken(matches[1], COMMENT, ogRow, ogColumn)
@@ -345,11 +339,14 @@ func Tokenize(source string) ([]Token, error) {
 			}
 		}
 
-		if token.tokenType == NEWLINE {
-			row++
-			column = startIndex
+		// Advance the position by the consumed text (comments and raw strings may span several lines).
+		consumed := source[ogI:i]
+
+		if lastNewline := strings.LastIndex(consumed, "\n"); lastNewline >= 0 {
+			row += strings.Count(consumed, "\n")
+			column = startIndex + len(consumed) - lastNewline - 1
 		} else {
-			column = ogColumn + (i - ogI)
+			column = ogColumn + len(consumed)
 		}
 
 		// If still no token has been found, exit with error.
